@@ -35,9 +35,43 @@ type pkgInfo struct {
 	constTypes map[string]string
 }
 
+// soft is set while one function is being translated: a construct outside the
+// subset then abandons that function only (see try), not the whole run.
+var soft bool
+
+type trError struct{ msg string }
+
 func fail(format string, a ...interface{}) {
-	fmt.Fprintf(os.Stderr, "translator: "+format+"\n", a...)
+	msg := fmt.Sprintf(format, a...)
+	if soft {
+		panic(trError{msg})
+	}
+	fmt.Fprintf(os.Stderr, "translator: "+msg+"\n")
 	os.Exit(1)
+}
+
+var untranslated []string
+var failedFns = map[string]bool{}
+
+// try translates one function; when it is outside the supported subset the
+// definition is left out of Generated.v (a comment says why), so that only the
+// obligations about that function break.
+func try(name string, f func() string) (out string) {
+	soft = true
+	defer func() {
+		soft = false
+		if r := recover(); r != nil {
+			e, ok := r.(trError)
+			if !ok {
+				panic(r)
+			}
+			untranslated = append(untranslated, name+": "+e.msg)
+			failedFns[strings.TrimPrefix(name, "g_")] = true
+			fmt.Fprintf(os.Stderr, "translator: UNTRANSLATED %s: %s\n", name, e.msg)
+			out = "(* UNTRANSLATED " + name + ": " + strings.ReplaceAll(e.msg, "*)", "* )") + " *)\n"
+		}
+	}()
+	return f()
 }
 
 func recvName(fd *ast.FuncDecl) string {
@@ -344,6 +378,9 @@ func (t *fnTr) num(e ast.Expr) string {
 				return "(wrap32 " + t.num(x.Args[0]) + ")"
 			}
 			if _, ok := t.p.funcs[id.Name]; ok && pureSet[id.Name] {
+				if failedFns[id.Name] {
+					t.unsupported(e, "call of the untranslated function "+id.Name)
+				}
 				return "(unwrap_num (g_" + id.Name + " " + t.num(x.Args[0]) + "))"
 			}
 		}
@@ -1404,15 +1441,18 @@ func main() {
 		pureSet[f] = true
 	}
 	for _, f := range pure {
-		b.WriteString(p.translateFunc(f) + "\n")
+		f := f
+		b.WriteString(try("g_"+f, func() string { return p.translateFunc(f) }) + "\n")
 	}
 	b.WriteString("(* ---- 2b. cursor loops ---- *)\n")
 	for _, f := range []string{"memUvarintReader.ReadUvarint", "memUvarintReader.SkipUvarint"} {
-		b.WriteString(p.translateCursorLoop(f) + "\n")
+		f := f
+		b.WriteString(try("g_"+coqName(f), func() string { return p.translateCursorLoop(f) }) + "\n")
 	}
 	b.WriteString("(* ---- 2c. loaders of the index structures ---- *)\n")
 	for _, f := range []string{"parseFooter", "Segment.getDocStoredOffsetsOnly", "Segment.loadStoredFieldChunk", "Segment.loadFields", "Segment.loadFieldDocValueReader"} {
-		b.WriteString(p.translateReader(f) + "\n")
+		f := f
+		b.WriteString(try("g_"+coqName(f), func() string { return p.translateReader(f) }) + "\n")
 	}
 	b.WriteString("(* ---- 3. lock skeletons ---- *)\n")
 	var keys []string
